@@ -408,13 +408,21 @@ where
                     "Unexpected end of file.",
                 ));
             }
-            if !path_str.starts_with("    ") || path_str.trim().is_empty() {
-                return Err(Error::new(
-                    ErrorKind::InvalidData,
-                    format!("Path expected: {path_str}"),
-                ));
-            }
-            let path = Path::from_escaped_string(path_str.trim()).map_err(|e| {
+            // Strip only the indentation and the line terminator;
+            // any other whitespace belongs to the (escaped) path.
+            let escaped_path = match path_str
+                .trim_end_matches(['\n', '\r'])
+                .strip_prefix("    ")
+            {
+                Some(p) if !p.is_empty() => p,
+                _ => {
+                    return Err(Error::new(
+                        ErrorKind::InvalidData,
+                        format!("Path expected: {path_str}"),
+                    ))
+                }
+            };
+            let path = Path::from_escaped_string(escaped_path).map_err(|e| {
                 Error::new(
                     ErrorKind::InvalidData,
                     format!("Invalid path {path_str}: {e}"),
